@@ -24,6 +24,7 @@ fn prop_def(id: &str) -> Option<PropDef> {
         "C17" => PropDef { parts: props::c17::parts(), rule: props::c17::RULE, assumptions: props::c17::ASSUMPTIONS, literal: None },
         "C01" => PropDef { parts: props::c01::parts(), rule: props::c01::RULE, assumptions: props::c01::ASSUMPTIONS, literal: Some(props::c01::check_literal) },
         "C02" => PropDef { parts: props::c02::parts(), rule: props::c02::RULE, assumptions: props::c02::ASSUMPTIONS, literal: None },
+        "C15" => PropDef { parts: props::c15::parts(), rule: props::c15::RULE, assumptions: props::c15::ASSUMPTIONS, literal: Some(props::c15::check_literal) },
         _ => return None,
     })
 }
